@@ -78,7 +78,7 @@ def run(ctx):
     n = ctx.budget(1200, 10000)
     for i in range(n):
         lang = 'ja' if i % 2 else 'en'
-        kw = dict(awkward=rng.choice([0.0, 0.3, 0.7]))
+        kw = dict(awkward=rng.choice([0.0, 0.3, 0.7]), unispace=rng.choice([0.0, 0.0, 0.2]))
         if i % 3 == 0:
             t = T.arbitrary_tree(rng, lang, rng.randint(1, 6), cats[lang], T.EN_LABELS if lang == 'en' else ja_labels, kw)
         else:
